@@ -1739,14 +1739,14 @@ func c03RuleDOrder(p *Program, r *Reporter) {
 	// edge (directly, or as the verdict of the followed helper that contains the Set), or is the duplicate-ack
 	setErr, _, _ := ErrValue(d.set.value())
 	walked := map[*c03Frame]bool{}
-	nVerdict := 0
+	nVerdict, nBehindAll := 0, 0
 	var walk func(fr *c03Frame)
 	walk = func(fr *c03Frame) {
 		if walked[fr] {
 			return
 		}
 		walked[fr] = true
-		nBehind := 0
+		nBehind, nDelegated := 0, 0
 		bad := ""
 		for _, nr := range e.maybeNilReturns(fr) {
 			at := ssa.Instruction(nr.Ret)
@@ -1778,6 +1778,7 @@ func c03RuleDOrder(p *Program, r *Reporter) {
 				}
 			}
 			if verdict {
+				nDelegated++
 				continue
 			}
 			ok, detail := c03DupAck(d, as)
@@ -1790,16 +1791,17 @@ func c03RuleDOrder(p *Program, r *Reporter) {
 				nBehind++
 			}
 		}
+		nBehindAll += nBehind
 		if fr != e.root || nBehind > 0 || bad != "" {
-			if nBehind == 0 && bad == "" && fr != e.root {
+			if nBehind == 0 && nDelegated == 0 && bad == "" && fr != e.root {
 				bad = FuncKey(fr.fn) + " has no return that may report success"
 			}
-			r.Check(bad == "", rule, FuncKey(fr.fn)+"#ack-after-index", ssite, fmt.Sprintf("all %d maybe-nil return(s) are on the err==nil edge of index.Set (or return its error)", nBehind), bad)
+			r.Check(bad == "", rule, FuncKey(fr.fn)+"#ack-after-index", ssite, fmt.Sprintf("all %d maybe-nil return(s) are on the err==nil edge of index.Set (or return its error); %d more return the verdict of a followed helper", nBehind, nDelegated), bad)
 		}
 	}
 	walk(e.root)
-	if !walked[d.set.fr] {
-		r.Violation(rule, fk+"#ack-after-index", ssite, "the function that writes the index row is not what ReceiveBlob returns the verdict of: its failures are not reported")
+	if nBehindAll == 0 {
+		r.Violation(rule, fk+"#ack-after-index", ssite, "no return of the receive path that may report success is behind the success of the index Set: its failures are not reported")
 	}
 	_ = nVerdict
 }
@@ -5146,10 +5148,20 @@ func c03IsDeferOrGo(in ssa.Instruction) bool {
 // through, b has run and returned nil.
 func c03SuccDom(c *ssa.Call, s ssa.Instruction) (bool, string) {
 	ok, why := SuccessDominates(c, s)
+	if c.Parent() != s.Parent() {
+		return ok, why
+	}
+	all, refuted := c03SucceededOnAllPaths(c, s)
 	if ok {
+		// SuccessDominates accepts a nil test of a phi that merges the call's error with other values; a
+		// path on which the error is known non-nil and the site is reached anyway (the error variable was
+		// reset) refutes it
+		if refuted {
+			return false, "the call's error is non-nil on a path that reaches the site (the error variable is overwritten before it is tested)"
+		}
 		return true, ""
 	}
-	if c.Parent() == s.Parent() && c03SucceededOnAllPaths(c, s) {
+	if all {
 		return true, ""
 	}
 	return false, why
@@ -5159,14 +5171,14 @@ func c03SuccDom(c *ssa.Call, s ssa.Instruction) (bool, string) {
 // instruction s, following only feasible branches as far as the nil-ness of the
 // call's error value (and of the phis it flows into) decides them, and reports
 // whether on each of them the call has executed and its error is nil at s.
-func c03SucceededOnAllPaths(c *ssa.Call, s ssa.Instruction) bool {
+func c03SucceededOnAllPaths(c *ssa.Call, s ssa.Instruction) (all, refuted bool) {
 	ev, hasErr, discarded := ErrValue(c)
 	if !hasErr || discarded || ev == nil {
-		return false
+		return false, false
 	}
 	fn := c.Parent()
 	if len(fn.Blocks) == 0 || len(fn.Blocks) > 400 {
-		return false
+		return false, false
 	}
 	// tracked values: the error, the phis it (transitively) flows into, and what else those phis merge
 	tracked := map[ssa.Value]int{ev: 0}
@@ -5205,7 +5217,7 @@ func c03SucceededOnAllPaths(c *ssa.Call, s ssa.Instruction) bool {
 		}
 	}
 	if len(order) > 12 {
-		return false
+		return false, false
 	}
 	const (
 		unknown = 0
@@ -5231,11 +5243,11 @@ func c03SucceededOnAllPaths(c *ssa.Call, s ssa.Instruction) bool {
 		s    state
 	}
 	seen := map[key]bool{}
-	okAll := true
+	okAll, aborted, counter := true, false, false
 	steps := 0
 	var walk func(b *ssa.BasicBlock, pred *ssa.BasicBlock, sv state)
 	walk = func(b *ssa.BasicBlock, pred *ssa.BasicBlock, sv state) {
-		if !okAll {
+		if aborted {
 			return
 		}
 		if pred != nil && b.Dominates(pred) {
@@ -5247,7 +5259,7 @@ func c03SucceededOnAllPaths(c *ssa.Call, s ssa.Instruction) bool {
 		}
 		steps++
 		if steps > 20000 {
-			okAll = false
+			okAll, aborted = false, true
 			return
 		}
 		pi := -1
@@ -5265,6 +5277,9 @@ func c03SucceededOnAllPaths(c *ssa.Call, s ssa.Instruction) bool {
 			if in == s {
 				if !(sv.passed && sv.st[0] == isNil) {
 					okAll = false
+				}
+				if sv.passed && sv.st[0] == nonNil {
+					counter = true
 				}
 				return
 			}
@@ -5352,7 +5367,7 @@ func c03SucceededOnAllPaths(c *ssa.Call, s ssa.Instruction) bool {
 			reached = true
 		}
 	}
-	return okAll && reached
+	return okAll && reached, counter && !aborted
 }
 
 // order decides "a precedes b" (success=false) or "a, a call, has succeeded at
